@@ -86,6 +86,7 @@ arr_cmplx Pow2FftPlan::solve(const arr_cmplx& x) const {
 
 void Pow2FftPlan::solve(const cmplx_t* x, cmplx_t* y, int n) const {
     DSPLIB_ASSERT(x != y, "Pointers must be restricted");
+    DSPLIB_ASSERT(n == n_, "input size must be equal FFT size");
     _fft(x, y, n);
 }
 
